@@ -2,6 +2,8 @@
 from vklib import Builder
 
 QUICK_EXP = [-3, -1, 0, 1, 5, 52, 53, 62]
+FRAC_QUICK = [52, 50, 48]        # 0, 2, 4 fractional mantissa bits: CBMC time grows ~2.3x per 4 fractional bits (e=40: 207 s, e=32: 908 s)
+FRAC_THOROUGH = [46, 44, 40]
 KNOWN_BAD_EXP = [63, 64]          # finding C19-F1: f64_int_bits for x >= 2^63
 
 
@@ -126,7 +128,7 @@ def spec(tier, seed):
         if e <= 52:
             # fractional bits: mantissa bits after the first max(e,0) ones; for e < 0 the encoder normalises first
             shift = max(e, 0)
-            if e >= 0:
+            if e >= 0 and e in FRAC_QUICK + FRAC_THOROUGH:
                 b.add(bits, "vk_c19_mkd_frac_bits_e%s" % tag, common + """
         let got = f64_fractional_bits(x);
         assert!(got.len() == 53);
@@ -138,10 +140,10 @@ def spec(tier, seed):
             k += 1;
         }
         std::mem::forget(got);
-        """ % shift, unwind=56, tier=t, cost=20,
+        """ % shift, unwind=56, tier="quick" if e in FRAC_QUICK else "thorough", core=e in FRAC_QUICK, cost=20 + (52 - e) * 20,
                       bounds="x = 1.m * 2^%d, all 2^52 mantissas; unwind 56 (checked)" % e,
                       functions=["rusty_variant::bits::f64_fractional_bits"])
-            else:
+            elif e < 0:
                 b.add(bits, "vk_c19_mkd_normalize_e%s" % tag, common + """
         let s: bool = kani::any();
         let x = if s { -x } else { x };
